@@ -5,6 +5,7 @@
 -/
 import XotModel.Driver.Entity
 import XotModel.Driver.Tree
+import XotModel.Driver.Parse
 
 open XotModel.Driver
 
@@ -13,6 +14,7 @@ def dispatch (st : DState) (line : String) : DState × String :=
   | "vocab" :: rest => (handleVocab st rest).getD (st, "bad-request")
   | "entity" :: rest => (st, (handleEntity rest).getD "bad-request")
   | "tree" :: rest => (st, (handleTree rest).getD "bad-request")
+  | "build" :: rest => (st, (handleBuild st rest).getD "bad-request")
   | _ => (st, "bad-request")
 
 partial def loop (h : IO.FS.Stream) (out : IO.FS.Stream) (st : DState) : IO Unit := do
